@@ -256,8 +256,13 @@ func c10Build(c *fw.Case) c10Case {
 		default:
 			cs.sql = "SELECT q.v FROM (SELECT " + q + ".VBG(n1) AS v FROM t1) q"
 		}
-		if c.Chance(0.3) {
+		switch c.Intn(10) {
+		case 0, 1, 2:
 			cs.extra = append(cs.extra, genql.UnReportedErrors(func(error) {}))
+		case 3, 4:
+			// a handler that misbehaves: it runs on the call's background goroutine
+			cs.extra = append(cs.extra, genql.UnReportedErrors(func(error) { panic("handler") }))
+			cs.feats = append(cs.feats, "handler.panics")
 		}
 	case "await":
 		cs.bg = true
@@ -469,7 +474,8 @@ func c10Build(c *fw.Case) c10Case {
 		// the back-navigation marker selected as a value and carried through
 		// the stages that fingerprint, compare or sort whole rows
 		inner := gen.Pick(c.R, []string{"(SELECT `<-` FROM dual)", "(SELECT `<-` AS up FROM dual)", "(SELECT `<-` AS up, e FROM arr)", "ARRAY(`<-`)", "`<-`",
-			"(SELECT (SELECT `<-.<-` AS up FROM dual) AS s2 FROM dual)", "(SELECT `'<-'` AS up FROM dual)", "(SELECT `<-<-` AS up FROM dual)", "(SELECT `<-.'<-'` AS up FROM dual)", "(SELECT `<-`, `<-.<-` AS g FROM dual)"})
+			"(SELECT (SELECT `<-.<-` AS up FROM dual) AS s2 FROM dual)", "(SELECT `'<-'` AS up FROM dual)", "(SELECT `<-<-` AS up FROM dual)", "(SELECT `<-.'<-'` AS up FROM dual)", "(SELECT `<-`, `<-.<-` AS g FROM dual)",
+			"(SELECT * FROM `<-` x)", "(SELECT x FROM `<-` x)", "(SELECT `<-::` AS up FROM dual)", "(SELECT `<-.` AS up FROM dual)", "(SELECT `<- ` AS up FROM dual)", "(SELECT * FROM `<-.<-` y)", "(SELECT `<-.<-::` AS up FROM dual)"})
 		cs.sql = gen.Pick(c.R, []string{
 			"WITH a AS (SELECT " + inner + " AS x FROM t1) SELECT DISTINCT * FROM a",
 			"WITH a AS (SELECT rid, " + inner + " AS x FROM t1), b AS (SELECT " + inner + " AS y, x FROM a) SELECT DISTINCT * FROM b",
